@@ -294,7 +294,7 @@ func c05(c *Ctx) {
 		r.Check("event:one-dispatch-site", de == 1, hd.Pos(), fmt.Sprintf("%d DispatchEvent sites", de))
 		// line splitting on '\n'
 		okIdx, okLine, okRest := false, false, false
-		var idxCall *ssa.Call
+		var idxCall, cutCall *ssa.Call
 		for _, cl := range callsTo(hd, "bytes.IndexByte") {
 			if n, isC := constInt(cl.Common().Args[1]); isC && n == '\n' {
 				okIdx = true
@@ -313,7 +313,27 @@ func c05(c *Ctx) {
 				}
 			}
 		})
-		r.Check("split:on-newline", okIdx, hd.Pos(), "lines are found with bytes.IndexByte(msg, '\\n')")
+		// the same split spelled bytes.Cut(msg, "\n"): line = before, msg = after
+		for _, cl := range callsTo(hd, "bytes.Cut") {
+			sep, okSep := byteSliceConst(w, cl.Common().Args[1], 0)
+			if !okSep || sep != "\n" {
+				continue
+			}
+			okIdx = true
+			cutCall = cl.(*ssa.Call)
+			for _, ref := range referrers(cutCall) {
+				if ex, ok := ref.(*ssa.Extract); ok {
+					switch ex.Index {
+					case 0:
+						okLine = true
+					case 1:
+						// the remainder becomes the next msg (it flows into the msg phi / cut argument)
+						okRest = true
+					}
+				}
+			}
+		}
+		r.Check("split:on-newline", okIdx, hd.Pos(), "lines are found with bytes.IndexByte(msg, '\\n') or bytes.Cut(msg, \"\\n\")")
 		r.Check("split:line-excludes-newline", okLine, hd.Pos(), "line = msg[:idx]")
 		r.Check("split:rest-after-newline", okRest, hd.Pos(), "msg = msg[idx+1:]")
 		// the line handed to parseLine is the split line
@@ -357,6 +377,10 @@ func c05(c *Ctx) {
 				}
 			case *ssa.Slice:
 				if x.Low != nil || !fromMsg(x.X) {
+					okLineArg = false
+				}
+			case *ssa.Extract:
+				if !(cutCall != nil && x.Tuple == ssa.Value(cutCall) && x.Index == 0) {
 					okLineArg = false
 				}
 			case *ssa.Const:
@@ -502,19 +526,22 @@ func c05(c *Ctx) {
 				continue
 			}
 			nSrcTag++
-			// value = tag[5:] under HasPrefix(tag, "host:")
+			// value = the tag without its "host:" prefix, for a tag that has that prefix
 			okPref := false
-			for _, cd := range condsFor(st.Block()) {
-				cd = normCond(cd)
-				if cl, ok := cd.V.(*ssa.Call); ok && isCall(cl, "strings.HasPrefix") && cd.Sense {
-					if s, isS := constString(cl.Call.Args[1]); isS && s == "host:" {
-						if sl, ok := stripConv(st.Val).(*ssa.Slice); ok && sl.X == cl.Call.Args[0] {
-							if lo, isC := constInt(sl.Low); isC && lo == int64(len(s)) && sl.High == nil {
-								okPref = true
-							}
+			if tagV, needsGuard, ok := strStripped(stripConv(st.Val), "host:", false); ok {
+				// (i) a dominating prefix test of the same tag
+				for _, f := range factsAt(st.Block()) {
+					if f.Op == token.ILLEGAL && f.True {
+						if src, isT := strPrefixTest(f.V, "host:", false); isT && src == tagV {
+							okPref = true
 						}
 					}
 				}
+				// (ii) the tag is the first element satisfying a predicate that is that prefix test
+				if pred, isFM := firstMatchOf(tagV, st.Block()); isFM && predicateRenders(pred, "strings.HasPrefix(p0,\"host:\")") {
+					okPref = true
+				}
+				_ = needsGuard
 			}
 			r.Check("source:host-tag-when-ignore-host", known && ih && okPref, st.Pos(), "Source <- tag[len(\"host:\"):] for the tag with prefix host:, only with ignore-host")
 			// the tag is removed: a Tags store in the region dominated by this block on every path, then the loop is left
